@@ -497,6 +497,15 @@ class Check:
             "wall_s": round(time.time() - self.t0, 2), "violations": len(self.violations),
         }
         if self.theorems: self.cov["theorems"] = self.theorems
+        try:
+            # what the claimed level means for this property (same text as MANIFEST.level_claimed), so the evidence
+            # file can be read on its own
+            sys.path.insert(0, os.path.join(VERIF, "gen"))
+            import mkmanifest
+            c = mkmanifest.CHECKS.get(self.prop)
+            if c: self.cov["explanation"] = "%s -- %s Not covered / assumed: %s" % (c["tech"], c["text"], c["note"])
+        except Exception:
+            pass
         with open(os.path.join(VERIF, "evidence", self.prop + ".json"), "w") as f:
             json.dump(ev, f, indent=1)
         for e in self.known_hits:
